@@ -33,9 +33,10 @@ impl<B: BufRead> TripleParser<B> for RdfXmlParser {
 /// The [`Source`] produced by [`RdfXmlParser`].
 ///
 /// It yields the triples of the underlying Rio parser,
-/// after checking that their IRIs are valid absolute IRIs:
+/// after checking that their IRIs are valid absolute IRIs and their blank node identifiers valid labels:
 /// Rio does not check the IRIs that it builds from XML names (namespace + local name),
-/// nor those that it could not resolve for lack of a base IRI.
+/// nor those that it could not resolve for lack of a base IRI,
+/// and `rdf:nodeID` accepts XML names (e.g. ending with a dot) that are not blank node labels.
 pub struct RdfXmlSource<B: BufRead>(StrictRioTripleSource<RioRdfXmlParser<B>>);
 
 impl<B: BufRead> Source for RdfXmlSource<B> {
@@ -51,15 +52,21 @@ impl<B: BufRead> Source for RdfXmlSource<B> {
         let mut invalid: Option<String> = None;
         let more = self.0.try_for_some_item(|t| {
             if invalid.is_none() {
-                invalid = t.invalid_iri().map(String::from);
+                invalid = t
+                    .invalid_iri()
+                    .map(|iri| format!("invalid IRI <{iri}>"))
+                    .or_else(|| {
+                        t.invalid_bnode_id()
+                            .map(|id| format!("unsupported blank node identifier '{id}'"))
+                    });
             }
             // NB: nothing is yielded from the invalid triple on; the error is raised below
             if invalid.is_none() { f(t) } else { Ok(()) }
         })?;
         match invalid {
             None => Ok(more),
-            Some(iri) => Err(SourceError(
-                io::Error::new(io::ErrorKind::InvalidData, format!("invalid IRI <{iri}>")).into(),
+            Some(msg) => Err(SourceError(
+                io::Error::new(io::ErrorKind::InvalidData, msg).into(),
             )),
         }
     }
